@@ -331,7 +331,7 @@ def evalStep (env : Env) : Ast → EvalM Value
   | .neg a => do let l ← evalStep env a; pure (negV l)
   | .nq a b => do let l ← evalStep env a; let r ← evalStep env b; pure (nqV l r)
   | .null => pure .null
-  | .numeric before after => pure (numericV before after)
+  | .numeric before after => pure (numericV env.num before after)
   | .or a b => do let l ← evalStep env a; let r ← evalStep env b; pure (or3 l r)
   | .out a b => do
     -- `build_in(lhs, rhs)` evaluates both, then `lhs` is evaluated once more
